@@ -14,7 +14,7 @@ pub fn meta() -> Meta {
     Meta {
         id: "C13",
         level: "exploration",
-        rule: "real generic_modes::weed (file -> file, --min-freq 0) on built files at k in {7,31,33} (thorough: + 9, 63), both strand modes, the strands-merged file additionally with its rows stored in three different rotations of key order (row order carries no meaning), --reverse on and off, against the model (kept rows = rows whose key is / is not a split k-mer of the weed file): weed sets = every window of length k..k+4 of every sample record on a position grid, every union of two such windows from a reduced grid (this includes a record of length exactly k next to a longer one), each as is / reverse-complemented / with an N substituted / lower-case, plus an unrelated sequence, a whole sample and a weed file without any k-mer; every weed FASTA is written in one of four layouts derived from its content (one line; lines of 5; lines of 4 with CRLF; CRLF with header text and no final line end) (must be refused, file unchanged). Every kept row must be byte-identical incl. its stored count, names unchanged; a second application must change nothing; weed and reverse-weed must partition the file. CLI family for in-place vs -o. Non-trivial = the weed set removes at least one and keeps at least one k-mer.".into(),
+        rule: "real generic_modes::weed (file -> file, --min-freq 0) on built files at k in {7,31,33} (thorough: + 9, 63), both strand modes, the strands-merged file additionally with its rows stored in three different rotations of key order (row order carries no meaning), --reverse on and off, against the model (kept rows = rows whose key is / is not a split k-mer of the weed file): weed sets = every window of length k..k+4 of every sample record on a position grid, every union of two such windows from a reduced grid (this includes a record of length exactly k next to a longer one), each as is / reverse-complemented / with an N substituted / lower-case, plus homopolymer weed sequences (each letter; exactly k, k+2, as first / last / second record) against a file whose samples hold A and C homopolymer stretches, an unrelated sequence, a whole sample and a weed file without any k-mer; every weed FASTA is written in one of four layouts derived from its content (one line; lines of 5; lines of 4 with CRLF; CRLF with header text and no final line end) (must be refused, file unchanged). Every kept row must be byte-identical incl. its stored count, names unchanged; a second application must change nothing; weed and reverse-weed must partition the file. CLI family for in-place vs -o. Non-trivial = the weed set removes at least one and keeps at least one k-mer.".into(),
         assumptions: vec!["--min-freq 0 (the default 0.9 additionally applies a frequency filter, checked under C10)".into()],
         exhaustive_when_uncapped: true,
     }
@@ -126,8 +126,20 @@ pub fn replay(case: &Value) -> Result<Option<String>, String> {
     Ok(rep.violations.iter().find(|v| v.case["reverse"] == case["reverse"]).map(|v| v.what.clone()))
 }
 
+/// samples that hold homopolymer stretches of A and of C (hence, on the other strand, of T and G)
+fn homopolymer_pool(k: usize, seed: u64) -> Vec<Vec<Vec<u8>>> {
+    let pre = crate::enumerate::repeat_free(2 * k, k, 0, seed + 771);
+    let post = crate::enumerate::repeat_free(2 * k, k, 0, seed + 772);
+    let mk = |mid: u8, tail: u8| -> Vec<u8> { [pre.as_slice(), b"G", &vec![b'A'; k + 2], &[mid], &vec![b'C'; k + 1], &[tail], post.as_slice()].concat() };
+    let mut pool = samples::pool(k, seed);
+    pool[0] = vec![mk(b'G', b'T')];
+    pool[1] = vec![mk(b'T', b'T'), pre.clone()];
+    pool
+}
+
 fn make_file(k: usize, rc: bool, seed: u64, rot: usize) -> Result<File, String> {
-    let pool = samples::pool(k, seed);
+    // rot >= 10: the homopolymer pool, rows rotated by rot - 10
+    let (pool, rot_rows) = if rot >= 10 { (homopolymer_pool(k, seed), rot - 10) } else { (samples::pool(k, seed), rot) };
     let pick = [0usize, 1, 3, 5];
     let names: Vec<String> = pick.iter().map(|i| format!("s{i}")).collect();
     let paths: Vec<String> = pick.iter().map(|i| scratch::write(&format!("c13_s{i}.fa"), &scratch::fasta(&pool[*i]))).collect();
@@ -137,7 +149,7 @@ fn make_file(k: usize, rc: bool, seed: u64, rot: usize) -> Result<File, String> 
     // rewrite with a deterministic row order (key order rotated): the stored order is otherwise the
     // builder's hash order, which differs from process to process
     let nrows = state.table.rows.len().max(1);
-    state.write_rot(&path, (rot * nrows) / 3 + rot);
+    state.write_rot(&path, (rot_rows * nrows) / 3 + rot_rows);
     let records: Vec<Vec<u8>> = pick.iter().flat_map(|i| pool[*i].clone()).collect();
     Ok(File { rot, seed, k, rc, path, state, records })
 }
@@ -211,6 +223,29 @@ pub fn run(ctx: &Ctx, rep: &mut Report) {
                 check_weed(rep, &f, &[b"ACG".to_vec()], "no k-mer");
                 check_weed(rep, &f, &[vec![b'N'; k + 2]], "only N");
                 rep.corner("matches_everything");
+            }
+            // homopolymer weed sequences against a file that holds homopolymer stretches: the split k-mer with all-A
+            // arms is the all-zero word, its reverse complement the all-T one; first, last and only k-mer of the file
+            if rot == 0 {
+                idx += 1;
+                if ctx.mine(idx) {
+                    match make_file(k, rc, ctx.seed, 10) {
+                        Ok(hf) => {
+                            let flank = crate::enumerate::repeat_free(k + 3, k, 0, ctx.seed + 773);
+                            for l in *b"ACGT" {
+                                let run = |n: usize| vec![l; n];
+                                check_weed(rep, &hf, &[run(k)], "homopolymer, exactly k");
+                                check_weed(rep, &hf, &[run(k + 2)], "homopolymer, k+2");
+                                check_weed(rep, &hf, &[[run(k + 1), flank.clone()].concat()], "homopolymer first, then other k-mers");
+                                check_weed(rep, &hf, &[[flank.clone(), run(k + 1)].concat()], "other k-mers first, homopolymer last");
+                                check_weed(rep, &hf, &[flank.clone(), run(k)], "homopolymer as second record");
+                                check_weed(rep, &hf, &[run(k), hf.records[0].clone()], "homopolymer record, then a whole sample");
+                                rep.corner("homopolymer_weed_sequences");
+                            }
+                        }
+                        Err(e) => rep.machinery(format!("C13 cannot build the homopolymer file: {e}")),
+                    }
+                }
             }
             // CLI: in place vs -o
             idx += 1;
